@@ -1,5 +1,5 @@
 """C01 — writer exclusion and reader sharing hold on every acquisition path."""
-from props.shared import mu_groups, mu_lemmas
+from props.shared import mu_groups, mu_lemmas, cv_groups
 
 ID = "C01"
 LEVEL = "proof"
@@ -14,7 +14,9 @@ EXPLANATION = (
     "callees replaced by their contracts, meets its ghost contract: lock => writer, rlock => reader, trylock/rtrylock => held iff "
     "non-zero result, lock_slow => the mode of its lock type (tagged invariant: its acquisition mask keeps every lock bit the type "
     "demands), the timeout re-acquisition of mu_wait.c => the caller's mode or nothing, nsync_mu_wait_with_deadline => the mode held on "
-    "entry, unlock/runlock/unlock_without_wakeup => none. The real lock_type tables are shown to satisfy what the proofs assume.")
+    "entry, unlock/runlock/unlock_without_wakeup => none; nsync_cv_wait_with_deadline_generic => the mode held on entry (nsync_mu in either "
+    "mode, re-acquired through lock / rlock / lock_slow as designated waker after a transfer); wake_waiters (the cv waker that CASes the "
+    "MUTEX word to transfer waiters) => the caller's hold unchanged, every step a legal transition. The real lock_type tables are shown to satisfy what the proofs assume.")
 ASSUMPTIONS = ["semaphore flavours: nsync_mu_semaphore_p/v are stubs with arbitrary effect on the waiter's private state and none on the word, which "
                "over-approximates counting and binary semaphores; deadlines enter only as the arbitrary result of the timed sleep",
                "the waiter queue is abstracted inside word-level proofs (sound over-approximation; exact list behaviour: C17)"]
@@ -24,4 +26,4 @@ PARALLEL = 14
 
 
 def groups(tier):
-    return mu_groups(tags=["C01"]) + mu_lemmas(tags=["C01"])
+    return mu_groups(tags=["C01"]) + mu_lemmas(tags=["C01"]) + cv_groups(tags=["C01"])
